@@ -904,9 +904,39 @@ Lemma torch_seed_choice_l (fresh z : Z) :
 Proof. split; reflexivity. Qed.
 
 (** * STFT framing arithmetic shared by compute.py and torch.py *)
+(* what a plan lets observe: [None] also when there is no frame to compute (both
+   implementations then return the empty matrix; the PyTorch port must not reach its FFT) *)
+Definition plan_obs (p : option (Z * Z * Z)) : option (Z * Z * Z) :=
+  match p with
+  | Some (nf, pl, pr) => if nf =? 0 then None else Some (nf, pl, pr)
+  | None => None
+  end.
+
 Lemma stft_plan_np_eq_pt_l Lf S centered k N :
-  np_stft_plan Lf S (negb centered) k N = pt_stft_plan Lf S centered k N.
-Proof. reflexivity. Qed.
+  pt_stft_plan Lf S centered k N = plan_obs (np_stft_plan Lf S (negb centered) k N).
+Proof.
+  unfold pt_stft_plan, np_stft_plan, plan_obs.
+  destruct (N <? Lf / 2 + 1); [reflexivity|]. cbv zeta.
+  destruct (Z.max 0 ((N + S / 2) / S) =? 0); reflexivity.
+Qed.
+
+(* whenever frame_shift <= frame_length the two plans are literally equal (a signal that
+   passes the too-short gate has at least one frame) *)
+Lemma stft_plan_np_eq_pt_narrow_l Lf S centered k N :
+  0 < S <= Lf -> pt_stft_plan Lf S centered k N = np_stft_plan Lf S (negb centered) k N.
+Proof.
+  intros HS. rewrite stft_plan_np_eq_pt_l. unfold np_stft_plan, plan_obs.
+  destruct (N <? Lf / 2 + 1) eqn:E; [reflexivity|]. cbv zeta.
+  apply Z.ltb_ge in E.
+  destruct (Z.max 0 ((N + S / 2) / S) =? 0) eqn:E0; [|reflexivity].
+  apply Z.eqb_eq in E0. exfalso.
+  assert (1 <= (N + S / 2) / S).
+  { apply Z.div_le_lower_bound; [lia|].
+    pose proof (Z.div_mod S 2 ltac:(lia)). pose proof (Z.mod_pos_bound S 2 ltac:(lia)).
+    pose proof (Z.div_mod Lf 2 ltac:(lia)). pose proof (Z.mod_pos_bound Lf 2 ltac:(lia)).
+    assert (S / 2 <= Lf / 2) by (apply Z.div_le_mono; lia). lia. }
+  lia.
+Qed.
 
 Lemma stft_plan_too_short_l Lf S causal k N :
   np_stft_plan Lf S causal k N = None <-> N < Lf / 2 + 1.
